@@ -7,6 +7,13 @@ Precedences as in the grammar: `\\+` (prefix) binds tighter than `,` tighter tha
 `->` tighter than `;`; the binary ones are right associative."""
 
 import re
+import os
+import sys
+
+_here = os.path.dirname(os.path.abspath(__file__))
+if _here not in sys.path:
+    sys.path.insert(0, _here)
+
 
 from terms import NIL, TRUE, FAIL, CUT, mklist
 
